@@ -31,16 +31,14 @@ def decompSuffix (p : Params) (v : Str) : Except PyErr (Str × Str × Str) :=
     | some ds => .ok ([], cutSuffix v ds, ds)
   else .ok ([], v, [])
 
+/-- the prefix is split off first; the suffix is looked for in what is left -/
 def decompBoth (p : Params) (v : Str) : Except PyErr (Str × Str × Str) :=
-  if prefixDetected E v p.prefixes && suffixDetected E v p.suffixes then
-    match getMatchedPrefix E v p.prefixes with
-    | none => .error .typeError
-    | some dp =>
-      match getMatchedSuffix E (cutPrefix v dp) p.suffixes with
-      | none => .error .typeError
-      | some ds => .ok (dp, cutSuffix (cutPrefix v dp) ds, ds)
-  else if prefixDetected E v p.prefixes then decompPrefix E p v
-  else decompSuffix E p v
+  match decompPrefix E p v with
+  | .error e => .error e
+  | .ok (dp, c, _) =>
+    match decompSuffix E p c with
+    | .error e => .error e
+    | .ok (_, w, ds) => .ok (dp, w, ds)
 
 def decomp (cp cs : Bool) (p : Params) (v : Str) : Except PyErr (Str × Str × Str) :=
   match cp, cs with
@@ -66,21 +64,20 @@ theorem dChecker_eq (cp cs : Bool) (p : Params) (v : Str) (idx : Int) (f : Check
   · simp only [dChecker, decomp, checkForPrefixAndSuffixExceptions, decompBoth, decompPrefix, decompSuffix,
       cutPrefix, cutSuffix]
     by_cases hp : prefixDetected E v p.prefixes = true
-    · by_cases hs : suffixDetected E v p.suffixes = true
-      · simp only [hp, hs, Bool.and_self, if_true]
-        cases getMatchedPrefix E v p.prefixes with
-        | none => rfl
-        | some dp =>
-          simp only
+    · simp only [hp, if_true]
+      cases getMatchedPrefix E v p.prefixes with
+      | none => rfl
+      | some dp =>
+        simp only
+        by_cases hs : suffixDetected E (removePrefix v (extractPrefix v dp)) p.suffixes = true
+        · simp only [hs, if_true]
           cases getMatchedSuffix E (removePrefix v (extractPrefix v dp)) p.suffixes <;> rfl
-      · simp only [hp, hs, Bool.and_false, Bool.false_eq_true, if_false, if_true]
-        cases getMatchedPrefix E v p.prefixes <;> rfl
-    · simp only [hp, Bool.false_and, Bool.false_eq_true, if_false]
+        · simp only [hs, Bool.false_eq_true, if_false]; rfl
+    · simp only [hp, Bool.false_eq_true, if_false]
       by_cases hs : suffixDetected E v p.suffixes = true
       · simp only [hs, if_true]
         cases getMatchedSuffix E v p.suffixes <;> rfl
-      · simp only [hs, Bool.false_eq_true, if_false]
-        rfl
+      · simp only [hs, Bool.false_eq_true, if_false]; rfl
 
 end decomp
 
@@ -146,23 +143,50 @@ theorem decompSuffix_le (T : CharWise E fold lc uc fc) {p : Params} {v pre w suf
       simpa using suffix_le T hds
   · cases h; simp
 
-theorem decompBoth_le (T : CharWise E fold lc uc fc) {p : Params} {v pre w suf : Str}
-    (h : decompBoth E p v = .ok (pre, w, suf)) : (pre ++ w ++ suf).map lc = v.map lc := by
-  unfold decompBoth at h
+/-- the third component of `decompPrefix` and the first of `decompSuffix` are empty -/
+theorem decompPrefix_third {p : Params} {v pre w suf : Str} (h : decompPrefix E p v = .ok (pre, w, suf)) : suf = [] := by
+  unfold decompPrefix at h
   split at h
   · split at h
     · cases h
-    · rename_i dp hdp
-      split at h
-      · cases h
-      · rename_i ds hds
-        cases h
-        have h1 := prefix_le T hdp
-        have h2 := suffix_le T hds
-        rw [List.append_assoc, List.map_append, h2, ← List.map_append, h1]
+    · cases h; rfl
+  · cases h; rfl
+
+theorem decompSuffix_first {p : Params} {v pre w suf : Str} (h : decompSuffix E p v = .ok (pre, w, suf)) : pre = [] := by
+  unfold decompSuffix at h
+  split at h
   · split at h
-    · exact decompPrefix_le T h
-    · exact decompSuffix_le T h
+    · cases h
+    · cases h; rfl
+  · cases h; rfl
+
+/-- `decompBoth` is the composition of the two one-sided decompositions -/
+theorem decompBoth_ok {p : Params} {v pre w suf : Str} (h : decompBoth E p v = .ok (pre, w, suf)) :
+    ∃ c, decompPrefix E p v = .ok (pre, c, []) ∧ decompSuffix E p c = .ok ([], w, suf) := by
+  unfold decompBoth at h
+  cases h1 : decompPrefix E p v with
+  | error e => simp [h1] at h
+  | ok r1 =>
+    obtain ⟨dp, c, s1⟩ := r1
+    simp only [h1] at h
+    cases h2 : decompSuffix E p c with
+    | error e => simp [h2] at h
+    | ok r2 =>
+      obtain ⟨p2, w2, ds⟩ := r2
+      simp only [h2] at h
+      cases h
+      have e1 := decompPrefix_third h1
+      have e2 := decompSuffix_first h2
+      subst e1; subst e2
+      exact ⟨c, rfl, h2⟩
+
+theorem decompBoth_le (T : CharWise E fold lc uc fc) {p : Params} {v pre w suf : Str}
+    (h : decompBoth E p v = .ok (pre, w, suf)) : (pre ++ w ++ suf).map lc = v.map lc := by
+  obtain ⟨c, h1, h2⟩ := decompBoth_ok h
+  have e1 := decompPrefix_le T h1
+  have e2 := decompSuffix_le T h2
+  simp only [List.append_nil, List.nil_append] at e1 e2
+  rw [List.append_assoc, List.map_append, e2, ← List.map_append, e1]
 
 /-- D1: whatever the flags and the exception lists, prefix + word + suffix is the value after `lower()` -/
 theorem decomp_le (T : CharWise E fold lc uc fc) {cp cs : Bool} {p : Params} {v pre w suf : Str}
@@ -232,38 +256,17 @@ theorem decompSuffix_stable (T : CharWise E fold lc uc fc) {p : Params} {v pre w
 theorem decompBoth_stable (T : CharWise E fold lc uc fc) {p : Params} {v pre w suf w' : Str}
     (h : decompBoth E p v = .ok (pre, w, suf)) (hw : w'.map lc = w.map lc) :
     decompBoth E p (pre ++ w' ++ suf) = .ok (pre, w', suf) := by
-  have hle := decompBoth_le T h
-  have hv : E.lowerS (pre ++ w' ++ suf) = E.lowerS v := by
-    rw [T.lower_eq, T.lower_eq, ← hle]; simp [hw]
-  obtain ⟨hdp, hmp⟩ := detect_congr_prefix hv p.prefixes
-  obtain ⟨hds, _⟩ := detect_congr_suffix hv p.suffixes
-  unfold decompBoth at h ⊢
-  rw [hdp, hds, hmp]
-  by_cases hb : (prefixDetected E v p.prefixes && suffixDetected E v p.suffixes) = true
-  · simp only [hb, if_true] at h ⊢
-    cases hmp' : getMatchedPrefix E v p.prefixes with
-    | none => simp [hmp'] at h
-    | some dp =>
-      simp only [hmp'] at h ⊢
-      cases hms : getMatchedSuffix E (cutPrefix v dp) p.suffixes with
-      | none => simp [hms] at h
-      | some ds =>
-        simp only [hms] at h
-        cases h
-        -- what is left after the prefix: `w' ++ ds`, equal to the old rest after `lower()`
-        have hrest : cutPrefix (pre ++ w' ++ suf) pre = w' ++ suf := by
-          rw [List.append_assoc]; exact cutPrefix_append pre (w' ++ suf)
-        have hl : E.lowerS (w' ++ suf) = E.lowerS (cutPrefix v pre) := by
-          rw [T.lower_eq, T.lower_eq, ← suffix_le T hms]; simp [hw]
-        simp only [hrest]
-        rw [(detect_congr_suffix hl p.suffixes).2, hms]
-        simp only [cutSuffix_append]
-  · simp only [hb, Bool.false_eq_true, if_false] at h ⊢
-    by_cases hpd : prefixDetected E v p.prefixes = true
-    · simp only [hpd, if_true] at h ⊢
-      exact decompPrefix_stable T h hw
-    · simp only [hpd, Bool.false_eq_true, if_false] at h ⊢
-      exact decompSuffix_stable T h hw
+  obtain ⟨c, h1, h2⟩ := decompBoth_ok h
+  have e2 := decompSuffix_le T h2
+  simp only [List.nil_append] at e2
+  -- the prefix step on the new value: what is left is `w' ++ suf`, the old rest after `lower()`
+  have s1 : decompPrefix E p (pre ++ (w' ++ suf) ++ []) = .ok (pre, w' ++ suf, []) :=
+    decompPrefix_stable T h1 (by rw [← e2]; simp [hw])
+  have s2 : decompSuffix E p ([] ++ w' ++ suf) = .ok ([], w', suf) := decompSuffix_stable T h2 hw
+  simp only [List.append_nil, List.nil_append] at s1 s2
+  unfold decompBoth
+  rw [List.append_assoc, s1]
+  simp only [s2]
 
 /-- D2 -/
 theorem decomp_stable (T : CharWise E fold lc uc fc) {cp cs : Bool} {p : Params} {v pre w suf w' : Str}
@@ -276,6 +279,86 @@ theorem decomp_stable (T : CharWise E fold lc uc fc) {cp cs : Bool} {p : Params}
   · exact decompBoth_stable T h hw
 
 end facts
+
+/-! ### totality of the decomposition (since the repair of `check_for_prefix_and_suffix_exceptions`) -/
+section total
+variable (E : Env)
+
+theorem matchedPrefix_of_detected {v : Str} {ps : List Str} (h : prefixDetected E v ps = true) :
+    ∃ dp, getMatchedPrefix E v ps = some dp := by
+  unfold prefixDetected at h; unfold getMatchedPrefix
+  obtain ⟨x, hx, hq⟩ := List.any_eq_true.mp h
+  cases hf : ps.find? (fun p => (E.lowerS p).isPrefixOf (E.lowerS v)) with
+  | some dp => exact ⟨dp, rfl⟩
+  | none => rw [List.find?_eq_none] at hf; exact absurd hq (hf x hx)
+
+theorem matchedSuffix_of_detected {v : Str} {ss : List Str} (h : suffixDetected E v ss = true) :
+    ∃ ds, getMatchedSuffix E v ss = some ds := by
+  unfold suffixDetected at h; unfold getMatchedSuffix
+  obtain ⟨x, hx, hq⟩ := List.any_eq_true.mp h
+  cases hf : ss.find? (fun x => (E.lowerS x).isSuffixOf (E.lowerS v)) with
+  | some ds => exact ⟨ds, rfl⟩
+  | none => rw [List.find?_eq_none] at hf; exact absurd hq (hf x hx)
+
+theorem decompPrefix_total (p : Params) (v : Str) : ∃ d, decompPrefix E p v = .ok d := by
+  unfold decompPrefix
+  by_cases h : prefixDetected E v p.prefixes = true
+  · obtain ⟨dp, hdp⟩ := matchedPrefix_of_detected E h
+    simp only [h, if_true, hdp]; exact ⟨_, rfl⟩
+  · simp only [h, Bool.false_eq_true, if_false]; exact ⟨_, rfl⟩
+
+theorem decompSuffix_total (p : Params) (v : Str) : ∃ d, decompSuffix E p v = .ok d := by
+  unfold decompSuffix
+  by_cases h : suffixDetected E v p.suffixes = true
+  · obtain ⟨ds, hds⟩ := matchedSuffix_of_detected E h
+    simp only [h, if_true, hds]; exact ⟨_, rfl⟩
+  · simp only [h, Bool.false_eq_true, if_false]; exact ⟨_, rfl⟩
+
+/-- every name has a (prefix, word, suffix) decomposition, whatever the flags and the exception lists:
+    none of the four `dChecker` functions can raise -/
+theorem decomp_total (cp cs : Bool) (p : Params) (v : Str) : ∃ d, decomp E cp cs p v = .ok d := by
+  cases cp <;> cases cs <;> simp only [decomp]
+  · exact ⟨_, rfl⟩
+  · exact decompSuffix_total E p v
+  · exact decompPrefix_total E p v
+  · unfold decompBoth
+    obtain ⟨⟨dp, c, s1⟩, h1⟩ := decompPrefix_total E p v
+    obtain ⟨⟨p2, w, ds⟩, h2⟩ := decompSuffix_total E p c
+    simp only [h1, h2]; exact ⟨_, rfl⟩
+
+theorem dChecker_total (cp cs : Bool) (p : Params) (v : Str) (idx : Int) (f : Checker) :
+    ∃ o, dChecker E cp cs p v idx f = .ok o := by
+  obtain ⟨d, hd⟩ := decomp_total E cp cs p v
+  rw [dChecker_eq, hd]; exact ⟨_, rfl⟩
+
+/-- what `check_for_case_violation` can raise: KeyError (unknown `case` option) or the ValueError /
+    IndexError of `check_for_exception` — never a TypeError -/
+theorem checkForCaseViolation_errors (p : Params) (cp cs : Bool) (v : Str) (idx : Int) (e : PyErr)
+    (h : checkForCaseViolation E p cp cs v idx = .error e) :
+    (∃ n, e = .keyError n) ∨ e = .valueError ∨ e = .indexError := by
+  unfold checkForCaseViolation at h
+  split at h
+  · cases h
+  · split at h
+    · unfold checkForException at h
+      split at h
+      · cases h; exact Or.inr (Or.inl rfl)
+      · split at h
+        · cases h; exact Or.inr (Or.inr rfl)
+        · cases h
+    · cases hl : lookupCheck E p.style with
+      | error e' =>
+        simp only [hl, bind, Except.bind] at h
+        cases h
+        cases hs : p.style <;> simp [hs, lookupCheck] at hl
+        rename_i n
+        exact Or.inl ⟨n, hl.symm⟩
+      | ok f =>
+        simp only [hl, bind, Except.bind] at h
+        obtain ⟨o, ho⟩ := dChecker_total E cp cs p v idx f
+        rw [ho] at h; cases h
+
+end total
 
 /-! ### `check_for_case_violation` -/
 section check
